@@ -301,3 +301,22 @@ def generator_seed_variation(f, ops, is_target):
                 chosen[s] = kind if r < rate else None
             if chosen[s]:
                 rec["seed"] = {"__gen__": [chosen[s], s]}
+
+
+PRINTOPTIONS = [{"threshold": 3, "edgeitems": 1}, {"precision": 0}, {"precision": 1, "threshold": 5, "edgeitems": 1},
+                {"threshold": 3, "edgeitems": 1, "precision": 2}, None]
+
+
+def printoptions_variation(f, ops, at_start_only, rate=0.08):
+    """In some runs the application sets numpy's print options (few digits, everything summarised): once at the start
+    of the session, or a few times during it.  Decided by a stream of its own, after generation."""
+    r, k = f.random(), f.randint(1, 3)
+    plan = [(f.random(), f.choice(PRINTOPTIONS)) for _ in range(3)]
+    if r >= rate:
+        return
+    if at_start_only:
+        i = 1 if ops and ops[0].get("op") in ("np.seterr", "peer.config") else 0
+        ops.insert(i, {"c": 0, "op": "np.printoptions", "state": plan[0][1] or PRINTOPTIONS[0]})
+        return
+    for pos, state in plan[:k]:
+        ops.insert(int(pos * (len(ops) + 1)), {"c": 0, "op": "np.printoptions", "state": state})
